@@ -125,6 +125,17 @@ def main():
     finally:
         shutil.rmtree(scratch, ignore_errors=True)
     os.makedirs(os.path.join(HERE, 'crosscheck'), exist_ok=True)
+    path = os.path.join(HERE, 'crosscheck', 'REPORT.json')
+    if sys.argv[1:] and os.path.exists(path):
+        # a partial run updates the entries of the checks it ran and keeps the others
+        try:
+            old = json.load(open(path))
+            merged = dict(old.get('checks', {}))
+            merged.update(report['checks'])
+            report['checks'] = dict(sorted(merged.items()))
+            report['note'] = 'entries come from runs at different times; each run replaces the entries of the checks it was given'
+        except Exception:
+            pass
     tot = lambda n, k: sum(c[n][k] for c in report['checks'].values())
     report['total'] = {'queries': sum(c['queries'] for c in report['checks'].values()),
                        'cvc5': {k: tot('cvc5', k) for k in ('agree', 'disagree', 'unknown', 'error')},
